@@ -41,6 +41,27 @@ CHECKS = {
  "C20": ("fault_enumeration", "link-time interposition of write(2) (ld --wrap=write) executing scripted fault plans; byte comparison with the all-full reference; hard errors in forked children",
          "For small tables every write() call index x {partial(1), partial(n-1), partial(n/2), EINTRx1, EINTRx3} is executed and the finished file compared byte-for-byte with the reference; every call index x hard error {EIO, ENOSPC, EBADF, return 0} must stop the process with a message and never return from mtbl_writer_destroy; seeded multi-fault plans (p=0.1/0.5/0.9, one-byte writes) on small/medium, pooled/unpooled writers.",
          "trusted: the write shim; partial writes really write n bytes", "DESIGN.md §4 C20"),
+ "C04": ("exploration", "runtime reference-model monitor with a multiplicity-sensitive (multiset-of-unique-ids) merge function over generated source families; user-defined sources that invalidate buffers under ASan; real mtbl_merge tool with a test DSO",
+         "Families of 0-12 sources (real tables and user-defined sources that free/re-allocate their buffers on every call, duplicate keys inside user sources, empty sources, the empty key in none/one/all sources; layouts random/identical/disjoint/interleaved/nested) are merged in four modes (merge function, none, none+dupsort, failing merge function) and observed through mtbl_iter_next, mtbl_source_write + read back and the real mtbl_merge; values are lists of unique ids so the final value shows exactly which source values were folded and how often.",
+         "trusted: model + merge function in harness/family.h, msmerge.h; order among equal keys without dupsort is compared as a multiset", "DESIGN.md §4 C04"),
+ "C05": ("exploration", "online model-shadowed iterators on merger sources: derived lookups, full (position,target) product on small families, random interleaved histories, buffer-stability monitor, ASan",
+         "The merger source is treated as one table holding the merged content: derived query sets (incl. first/last key of every source) for get/get_prefix/get_range; the complete product of ways-to-reach-a-position x seek targets (always including the key just returned, backwards after exhaustion, keys that need merging) on small families; random 40-200 op histories on up to four interleaved merger iterators; merge-function mode and dupsort mode.",
+         "trusted: model in harness/family.h + itercheck.h", "DESIGN.md §4 C05"),
+ "C06": ("exploration", "runtime reference-model monitor of the sorter with mkstemp interposed (ld --wrap) to observe every spill: location, count and deadline; MTBL_VERIF hook for tiny chunks",
+         "Add sequences (random/sorted/reverse/all-equal/duplicates adjacent or spread, empty key, empty input) x memory limits from one entry per chunk to everything in memory x pools {none,0,1,2,4,8}; output through the iterator (full or abandoned) or mtbl_sorter_write compared with the model (multiset merge); every mkstemp template must lie in the configured temp dir, buffered payload must stay below the limit after every add (synchronous spills), spill count has a lower bound, temp dir empty afterwards; add/write refused after iteration began.",
+         "trusted: mkstemp shim; loosest reading of 'buffered entries reach the memory limit' (payload bytes)", "DESIGN.md §4 C06"),
+ "C07": ("exploration", "event-trace monitor: virtual CLOCK_MONOTONIC and stat(setfile) interposed (ld --wrap), model of the shared view updated at each observed reload attempt, snapshot-shadowed iterators, ASan",
+         "Random and scripted histories over 1-5 handles (dups with other intervals/filters/merge options), table files created/replaced/deleted, setfile rewrites, clock advances, reload/reload_now, iterators opened/advanced/sought/closed, handles destroyed in any order. P1: no stat(setfile) while an iterator is open; P2: forced/interval reload deadline at source operations; P3: a new iterator returns merge(view as of latest reload, filtered per handle); P4: older iterators keep their snapshot; ASan catches any use of an unloaded reader.",
+         "trusted: shims in harness/h_c07.c; model of my_fileset semantics (names already loaded keep their reader; setfile re-read only when inode/mtime change)", "DESIGN.md §4 C07"),
+ "C13": ("exploration", "controlled scheduler for the real threadpool/writer/sorter code (ld --wrap of pthread_* ; random walk, sticky random, PCT depth 1-3, injected spurious wake-ups) with deadlock = empty enabled set; native runs with delay injection under ASan and TSan",
+         "All threads are real but only the baton holder runs; every pthread call of mtbl/threadpool.c is a scheduling point. Scenarios: raw pool via threadpool.h (0-40 jobs, pool 1-6, 1-3 ordered/unordered handlers, 1-2 dispatcher threads) with exactly-once / order / max-worker / max-concurrency checkers; pooled writer vs unpooled bytes (also two writers sharing a pool); pooled multi-chunk sorter vs model (iterate, write, destroy without iterating). Distinct schedules are counted by hashing the choice trace.",
+         "trusted: harness/sched_shim.h (its own lock/condition bookkeeping); sampling of schedules, no enumeration; bounded-progress reading of 'calls return'", "DESIGN.md §4 C13"),
+ "C14": ("exploration", "ThreadSanitizer build of the library under concurrent workloads (shared pool from several caller threads; many threads on one reader) with delay injection; reports de-duplicated by accessing library functions",
+         "Process runs under -fsanitize=thread: 2-6 caller threads each with a pooled writer and pooled multi-chunk sorter sharing one pool; 4-12 threads on one open reader through private iterators (scan, get, get_prefix, get_range, seek storms) for all compression types and verify on/off; concurrent mtbl_crc32c. Every TSan data-race report whose accessing frame is library code is a violation.",
+         "trusted: gcc TSan; races only on executed access pairs", "DESIGN.md §4 C14"),
+ "C18": ("exploration", "stateful API-history generator with dependency-consistent teardown; /proc/self/fd, file-backed maps, /proc/self/task and directory snapshots; LeakSanitizer; ASan live-byte counter over repeated identical histories",
+         "Histories create and use pools, writers (pooled, refused adds), readers (valid / non-table / short), mergers (incl. failing callback), iterators of all kinds on readers/mergers/filesets/sorters (untouched, half-drained, drained, sought), sorters (1 entry per chunk .. in memory, pooled or not, destroyed unused / before iterating / after iteration / after a reported failure), filesets with dups and reloads; everything is destroyed in a random order consistent with the dependency graph; then descriptors, mappings, threads, temp dir, LSan and live heap bytes (steady state over 3-4 repetitions) are compared with the state before.",
+         "trusted: ASan allocator statistics and LeakSanitizer; anonymous mappings ignored by construction", "DESIGN.md §4 C18"),
  "C16": ("exploration", "runtime differential monitor vs textbook LEB128 + ASan exact-size buffers; exhaustive 2^32 enumeration in thorough",
          "Every 32-bit value (thorough: all 2^32, quick: 64 full 2^20 ranges) and boundary/walking/random 64-bit values are encoded, decoded and measured by the real functions and compared byte-for-byte with a textbook LEB128 / explicit little-endian reference; buffers are exact-size heap allocations under ASan so any access beyond the encoding is a report. Exhaustive for the 32-bit half, sampled for 64 bits.",
          "trusted: the 10-line LEB128 reference in harness/h_c16.c, gcc ASan red zones", "DESIGN.md §4 C16"),
